@@ -45,11 +45,21 @@ CLAIMED = {
 
 # later extensions of the checks (appended to the level texts above)
 EXTRA = {
-    "C06": " Also: a public caller that re-keys to a BEP42 id in the middle of a train of bootstrapped() calls.",
-    "C07": " Also: a late-answer family (relays with dead contacts keep the lookup alive while late peers answer after 0.52-1.4 s; late answers that certainly count are decided from the trace, ambiguous ones suspend the verdicts).",
-    "C08": " Also: token-bearing extra nodes for mutable puts (majority over all store requests) and a put started from the cache while a lookup of the same target comes back empty-handed (rule: no query error while a store request is outstanding that is then acknowledged in time).",
-    "C13": " Also: promotion runs (adaptive nodes that switched to server mode at their first 15-minute refresh are held by another table and queried by lookups).",
-    "C14": " Also: busy-node runs (a lookup every 200-450 ms for a virtual hour with a peer dead for good), partitions, suspensions, slow links.",
+    "C01": " Also: readers with a put for the same key in flight; a second announcer behind the writer's IP.",
+    "C02": " Also: a listener-less lookup (get_closest_nodes) that a get_immutable joins; the Byzantine-voted address pings the reader.",
+    "C03": " Also: announce_peer boundary ports; exact lazy-rotation count in the token model.",
+    "C04": " Every second run is one element of the exhaustive enumeration of histories over a 40-symbol alphabet (put key x seq x cas x value, get key x filter): depth <= 2 x capacity 1|2 in the quick tier, depth 3 in the thorough tier; the rest is sampled.",
+    "C05": " Also: generous peers (60..75 extra nodes per lookup answer) and well-formed wrong-kind replies.",
+    "C06": " Also: a public caller that re-keys to a BEP42 id in the middle of a train of bootstrapped() calls; bursts of 132..170 lookups on distinct targets.",
+    "C07": " Also: a late-answer family (relays with dead contacts keep the lookup alive while late peers answer after 0.52-1.4 s; late answers that certainly count are decided from the trace, ambiguous ones suspend the verdicts); the same lookup repeated after some of its answerers died.",
+    "C08": " Also: token-bearing extra nodes for mutable puts (majority over all store requests), a put started from the cache while a lookup of the same target comes back empty-handed (rule: no query error while a store request is outstanding that is then acknowledged in time), read-only flagged write replies.",
+    "C11": " Also: mixed address classes (LAN / loopback / link-local and routable peers and readers) and same-IP same-prefix sibling peers.",
+    "C13": " Also: promotion runs (adaptive nodes that switched to server mode at their first 15-minute refresh are held by another table and queried by lookups); aged large networks (90..140 servers, 21..44 virtual minutes, the knows-graph stays strongly connected).",
+    "C14": " Also: busy-node runs (a lookup every 200-450 ms for a virtual hour with a peer dead for good), partitions, suspensions, slow links; rule (e): a find_node for the node's own id within every 15-minute window.",
+    "C15": " Also: exact lazy-rotation count (must-reject when two rotations certainly lie between issue and use), guessed-token floods and requester crowds between issue and use, re-key of the server in the middle of a history.",
+    "C16": " Also: a late-holder family (the newest item arrives after the request timeout while the lookup is alive).",
+    "C18": " Also: slow path to the node's own address; wrong address voted for the first 20..280 s.",
+    "C20": " Also: store floods against mid-size and default per-info-hash capacities; an address-vote change with a put riding on a find_node.",
 }
 
 NOT_APPLICABLE = {
